@@ -5,14 +5,17 @@ from tools import hydro, vlib
 KINDS = {"f_count": "MonoSingle", "f_union_unique_count": "MonoSingle", "f_max": None,
          "f_fold_keyed": "MonoKeys", "f_reduce_keyed": "MonoKeys", "f_keyed_max": "MonoValue",
          "m_value_counts": "MonoValue", "m_keyed_first": "first",
-         "c_union_map_unique_count": "MonoSingle", "c_filter_map_keyed_fold": "MonoKeys"}
+         "c_union_map_unique_count": "MonoSingle", "c_filter_map_keyed_fold": "MonoKeys",
+         # round 8: the promise comes from the bound the builder RECORDED for the observed node
+         "m_vc_map": "recorded", "m_vc_map_with_key": "recorded", "m_fold_mono_map_with_key": "recorded",
+         "m_fold_mono": "recorded", "m_mk_map_with_key": "recorded", "m_count_map": "recorded"}
 
 
 class C33(C28):
     props_vo = "theories/Props/C33.vo"
     theorems = ["C33_monotone_fold_modelled_ir", "C33_count_monotone", "C33_keys_never_disappear_fold",
                 "C33_keys_never_disappear_reduce", "C33_monotone_keyed_fold_modelled_ir",
-                "C33_value_counts_monotone", "C33_bounded_value_first"]
+                "C33_value_counts_monotone", "C33_bounded_value_first", "C33_bound_judgement_sound"]
     prop = "C33"
     rule = ("flows producing monotone / bounded-value collections (count, unique-count, keyed fold / reduce, keyed max, "
             "value_counts, keyed first), snapshotted after every tick: small inputs under ALL partitions into <= 3 (4) "
@@ -27,6 +30,9 @@ class C33(C28):
 
     def flows(self):
         return [f for f, k in KINDS.items() if k]
+
+    def all_flows(self):
+        return self.flows()
 
     def to_coq(self, case, res):
         flow = case["flow"]
@@ -44,7 +50,18 @@ class C33(C28):
             return 1 if flow in tr.failed else hydro.emit_term_named(flow, tr.name(flow), res)
         if hydro.broken(res) or len(res["ticks"]) != len(case["ticks"]):
             return 3
-        term = "(chk33 %s %s %s %s)" % (KINDS[flow], tr.name(flow), hydro.g_ticks(case), hydro.g_impl(res))
+        # bit1: the promise of the RECORDED bound must hold on the implementation's snapshots; where the
+        # table above names a (possibly stronger) kind it is checked as well
+        kinds = []
+        rp = tr.root_promise(flow)
+        if rp is not None:
+            kinds.append(rp)
+        if KINDS[flow] not in (None, "recorded"):
+            kinds.append(KINDS[flow])
+        term = None
+        for kd in kinds:
+            t = "(chk33 %s %s %s %s)" % (kd, tr.name(flow), hydro.g_ticks(case), hydro.g_impl(res))
+            term = t if term is None else "(N.lor %s %s)" % (term, t)
         return tr.wrap(flow, case, term)
 
     def extra(self):
